@@ -612,7 +612,8 @@ class XPathToken(Token[ta.XPathTokenType]):
                 yield float(op1), op2
                 continue
 
-            yield op1, op2
+            yield self.with_implicit_timezone(op1, context), \
+                self.with_implicit_timezone(op2, context)
 
     @staticmethod
     def is_comparable(op1: Any, op2: Any, ordering: bool = False) -> bool:
@@ -640,6 +641,18 @@ class XPathToken(Token[ta.XPathTokenType]):
                 return False
             return not ordering or type(op1) is type(op2) and type(op1) is not Duration
         return type(op1) is type(op2)
+
+    @staticmethod
+    def with_implicit_timezone(value: Any, context: ta.ContextType) -> Any:
+        """
+        Returns a date/time value that has no timezone with the implicit timezone of
+        the dynamic context (a copy: the value may be owned by the caller).
+        """
+        if isinstance(value, AbstractDateTime) and value.tzinfo is None \
+                and context is not None and context.timezone is not None:
+            value = copy(value)
+            value.tzinfo = context.timezone
+        return value
 
     def get_operands(self, context: ta.ContextType, cls: type[Any] | None = None) -> Any:
         """
